@@ -121,6 +121,8 @@ where
         settings: &DefaultSettings<T>,
         step_direction: StepDirection,
     ) -> T {
+        #[cfg(clarabel_verif)]
+        crate::verif::emit(crate::verif::Event::Yield);
         let ατ = {
             if step.τ < T::zero() {
                 -self.τ / step.τ
@@ -154,6 +156,8 @@ where
     }
 
     fn add_step(&mut self, step: &Self, α: T) {
+        #[cfg(clarabel_verif)]
+        crate::verif::emit(crate::verif::Event::Yield);
         self.x.axpby(α, &step.x, T::one());
         self.s.axpby(α, &step.s, T::one());
         self.z.axpby(α, &step.z, T::one());
